@@ -21,23 +21,24 @@ import (
 const Key = "ring"
 
 type Cfg struct {
-	ID            string                `json:"id"`
-	Kind          string                `json:"kind"` // full | basic
-	JoinAfter     time.Duration         `json:"join_after"`
-	Observe       time.Duration         `json:"observe_period"`
-	Heartbeat     time.Duration         `json:"heartbeat_period"`
-	MinReady      time.Duration         `json:"min_ready"`
-	NumTokens     int                   `json:"num_tokens"`
-	Unregister    bool                  `json:"unregister_on_shutdown"`
-	ReadinessRing bool                  `json:"readiness_check_ring_health"`
-	TokensFile    string                `json:"tokens_file"`
-	AutoForget    time.Duration         `json:"auto_forget"`
-	RegisterState ring.InstanceState    `json:"basic_register_state"`
-	LeaveOnStop   bool                  `json:"basic_leave_on_stopping"`
-	Zone          string                `json:"zone"`
-	Seed          int64                 `json:"token_seed"`
-	HBTimeout     time.Duration         `json:"heartbeat_timeout"`
-	Generator     ring.TokenGenerator   `json:"-"`
+	ID            string                    `json:"id"`
+	Kind          string                    `json:"kind"` // full | basic
+	JoinAfter     time.Duration             `json:"join_after"`
+	Observe       time.Duration             `json:"observe_period"`
+	Heartbeat     time.Duration             `json:"heartbeat_period"`
+	MinReady      time.Duration             `json:"min_ready"`
+	NumTokens     int                       `json:"num_tokens"`
+	Unregister    bool                      `json:"unregister_on_shutdown"`
+	ReadinessRing bool                      `json:"readiness_check_ring_health"`
+	TokensFile    string                    `json:"tokens_file"`
+	AutoForget    time.Duration             `json:"auto_forget"`
+	RegisterState ring.InstanceState        `json:"basic_register_state"`
+	LeaveOnStop   bool                      `json:"basic_leave_on_stopping"`
+	Zone          string                    `json:"zone"`
+	Seed          int64                     `json:"token_seed"`
+	HBTimeout     time.Duration             `json:"heartbeat_timeout"`
+	FinalSleep    time.Duration             `json:"final_sleep"`
+	Generator     ring.TokenGenerator       `json:"-"`
 	KVWrap        func(kv.Client) kv.Client `json:"-"`
 }
 
@@ -51,14 +52,14 @@ type Inst struct {
 	Full        *ring.Lifecycler
 	Basic       *ring.BasicLifecycler
 
-	StartedAt  time.Time
-	StopAt     time.Time // stop requested (zero = not yet)
-	CrashedAt  time.Time
-	Started    bool
+	StartedAt time.Time
+	StopAt    time.Time // stop requested (zero = not yet)
+	CrashedAt time.Time
+	Started   bool
 	// bookkeeping for the checker
-	FreshJoin    bool // no entry / no tokens in ring and no tokens file when this incarnation started
+	FreshJoin          bool // no entry / no tokens in ring and no tokens file when this incarnation started
 	EntryAbsentAtStart bool
-	ReadyFirstAt time.Time
+	ReadyFirstAt       time.Time
 }
 
 func (i *Inst) Svc() services.Service {
@@ -70,11 +71,22 @@ func (i *Inst) Svc() services.Service {
 
 // New builds (does not start) an incarnation on its own store handle.
 func New(store *recstore.Store, cfg Cfg, incarnation int) (*Inst, error) {
+	w := fmt.Sprintf("%s#%d", cfg.ID, incarnation)
+	h := store.Client(w)
+	in, err := NewWithClient(cfg, incarnation, h)
+	if err != nil {
+		return nil, err
+	}
+	in.Handle = h
+	return in, nil
+}
+
+// NewWithClient builds an incarnation on any kv.Client (e.g. a gossip store client behind a crash wrapper).
+func NewWithClient(cfg Cfg, incarnation int, client kv.Client) (*Inst, error) {
 	in := &Inst{Cfg: cfg, Incarnation: incarnation, Writer: fmt.Sprintf("%s#%d", cfg.ID, incarnation)}
-	in.Handle = store.Client(in.Writer)
-	in.Client = in.Handle
+	in.Client = client
 	if cfg.KVWrap != nil {
-		in.Client = cfg.KVWrap(in.Handle)
+		in.Client = cfg.KVWrap(client)
 	}
 	gen := cfg.Generator
 	if gen == nil {
@@ -95,6 +107,7 @@ func New(store *recstore.Store, cfg Cfg, incarnation int) (*Inst, error) {
 			ObservePeriod:            cfg.Observe,
 			JoinAfter:                cfg.JoinAfter,
 			MinReadyDuration:         cfg.MinReady,
+			FinalSleep:               cfg.FinalSleep,
 			TokensFilePath:           cfg.TokensFile,
 			Zone:                     cfg.Zone,
 			UnregisterOnShutdown:     cfg.Unregister,
@@ -248,10 +261,10 @@ func (c *Checker) Check() (findings []Finding, stats map[string]int) {
 		}
 		decoded[v.N] = ring.GetOrCreateRingDesc(c.Store.Decode(v))
 	}
-	lastWriteAt := map[string]time.Time{}      // writer -> last commit time
-	firstTokenVersion := map[string]int{}      // id|token -> version where the token first appeared in id's list
-	activeSeen := map[string]bool{}            // writer -> first ACTIVE version judged
-	lastStateWriter := map[string]string{}     // id -> writer of the last version that held the entry
+	lastWriteAt := map[string]time.Time{}  // writer -> last commit time
+	firstTokenVersion := map[string]int{}  // id|token -> version where the token first appeared in id's list
+	activeSeen := map[string]bool{}        // writer -> first ACTIVE version judged
+	lastStateWriter := map[string]string{} // id -> writer of the last version that held the entry
 	for _, v := range vers {
 		prev := decoded[v.N-1]
 		cur := decoded[v.N]
